@@ -110,8 +110,11 @@ def _periodic_lower_bounds(x, period):
 
 def _periodic_overlap(x0, x1, y0, y1, period):
   # valid as long as no intervals are larger than period/2
+  # shift the interval [y0, y1] as a whole: aligning both ends independently can
+  # move y1 below y0 when they lie on either side of x0 + period/2.
+  width = y1 - y0
   y0 = _align_phase_with(y0, x0, period)
-  y1 = _align_phase_with(y1, x0, period)
+  y1 = y0 + width
   upper = jnp.minimum(x1, y1)
   lower = jnp.maximum(x0, y0)
   return jnp.maximum(upper - lower, 0)
